@@ -1013,4 +1013,64 @@ theorem reorder_ok (rs : List Record) : ∀ (order : List StrId),
       | head => exact this.1
       | tail _ h' => exact h3 r' h'
 
+/-! ### `blob_to_df`'s substring-based column typing -/
+
+theorem isPrefixOf_append_sep (c : Char) (b : List Char) :
+    ∀ (w a : List Char), c ∉ w → w.isPrefixOf (a ++ c :: b) = w.isPrefixOf a
+  | [], _, _ => by simp [List.isPrefixOf]
+  | x :: w, [], h => by
+    have hx : (x == c) = false := by
+      simp only [List.mem_cons, not_or] at h
+      simpa using (fun e => h.1 e.symm)
+    simp [List.isPrefixOf, hx]
+  | x :: w, y :: a, h => by
+    have h' : c ∉ w := fun hm => h (List.mem_cons_of_mem _ hm)
+    simp [List.isPrefixOf, isPrefixOf_append_sep c b w a h']
+
+/-- a word without the separator occurs in `a ++ sep :: b` iff it occurs in `a`
+or in `b` (it cannot straddle the separator) -/
+theorem infixB_append_sep (c : Char) (b w : List Char) (hc : c ∉ w) (hw : w ≠ []) :
+    ∀ (a : List Char), infixB w (a ++ c :: b) = (infixB w a || infixB w b)
+  | [] => by
+    have h0 := isPrefixOf_append_sep c b w [] hc
+    simp only [List.nil_append] at h0
+    have h1 : w.isPrefixOf [] = false := by
+      cases w with
+      | nil => exact absurd rfl hw
+      | cons x w => rfl
+    have h2 : w.isEmpty = false := by
+      cases w with
+      | nil => exact absurd rfl hw
+      | cons x w => rfl
+    simp [infixB, h0, h1, h2]
+  | y :: a => by
+    have h0 := isPrefixOf_append_sep c b w (y :: a) hc
+    simp only [List.cons_append] at h0
+    simp only [List.cons_append, infixB, h0, infixB_append_sep c b w hc hw a, Bool.or_assoc]
+
+/-- the confidence column of a level is categorical exactly when the READABLE
+LEVEL NAME contains one of the four words: the suffixes
+`_bootstrapping_probability` / `_avg_correlation` contain none, and no word can
+straddle the `_` -/
+theorem colIsCategory_dfConfColumn (name : String) (ck : ConfKey) :
+    colIsCategory (dfConfColumn name ck) = taintWords.any (strContains name) := by
+  have key : ∀ w : String, '_' ∉ w.toList → w.toList ≠ [] →
+      infixB w.toList ck.keyName.toList = false →
+      strContains (dfConfColumn name ck) w = strContains name w := by
+    intro w h1 h2 h3
+    simp only [strContains, dfConfColumn, String.toList_append]
+    have : "_".toList = ['_'] := by decide
+    rw [this, List.append_assoc, List.singleton_append, infixB_append_sep '_' _ _ h1 h2, h3,
+      Bool.or_false]
+  simp only [colIsCategory, taintWords, List.any_cons, List.any_nil, Bool.or_false]
+  rw [key "label" (by decide) (by decide) (by cases ck <;> decide),
+    key "name" (by decide) (by decide) (by cases ck <;> decide),
+    key "alias" (by decide) (by decide) (by cases ck <;> decide),
+    key "assignment" (by decide) (by decide) (by cases ck <;> decide)]
+
+theorem mem_taintOf (text : Lvl → String) (ck : ConfKey) (h : List Lvl) (l : Lvl) :
+    (taintOf text ck h).contains l = true ↔
+      l ∈ h ∧ colIsCategory (dfConfColumn (text l) ck) = true := by
+  simp [taintOf, List.mem_filter]
+
 end CTM.Output
